@@ -15,9 +15,9 @@ import (
 )
 
 type Options struct {
-	WithCap   bool                    // include slice elements between len and cap
-	SkipTypes map[reflect.Type]bool   // values of these types are rendered as "<skipped>"
-	SkipNames map[string]bool         // struct fields with these names are skipped
+	WithCap   bool                  // include slice elements between len and cap
+	SkipTypes map[reflect.Type]bool // values of these types are rendered as "<skipped>"
+	SkipNames map[string]bool       // struct fields with these names are skipped
 }
 
 type walker struct {
